@@ -63,6 +63,10 @@ def run(pid: str, tier: str, with_search: bool = False) -> int:
                             {"kind": "sched_replay", "cfg": key, "sched": s, "field": field, "detail": detail,
                              "message": f"{s}_plan for (N, olap, bmin, Lmin, Jdes, Kdes)={key} differs from every Sched.tla behaviour in field {field}"})
     V.set("model_plans", len(plans))
+    nuncl = sum(pj.get("unclamped", 0) for pj in plans)
+    V.set("model_bins_in_log_spaced_regime", nuncl)
+    if pid == "C04" and nuncl == 0:
+        raise tlc.TLCError("Sched.tla: no bin of any behaviour is in the unclamped log-spaced regime (LogSpaced would be vacuous)")
     V.set("model_configurations_replayed", len(items))
     if items:
         k0, v0 = items[len(items) // 2]
@@ -104,6 +108,7 @@ def run(pid: str, tier: str, with_search: bool = False) -> int:
                          "event_record": t["ev"][l - 1], "constants": t["c"],
                          "message": f"SchedTrace rejected bin/event {l} of {s} plan {t['meta']}: {clause}: {t['ev'][l - 1]}"})
     V.set("plans_with_log_spacing_clause", nlog)
+    V.set("recorded_bins_in_log_spaced_regime", sum(t["meta"].get("unclamped_bins", 0) for t in trs))
     V.sample({"recorded_plan": {"cfg": trs[0]["meta"], "constants": trs[0]["c"], "first_events": trs[0]["ev"][:2]}})
 
     if with_search:
